@@ -300,7 +300,22 @@ pub fn run(ctx: &mut Ctx) {
             return;
         };
         let w = dyadic_weights(rng, voices.len(), idx % 3 == 0);
-        if e.condition.get_interporation_weight_mut().set_parameter(1, &w).is_err() {
+        // the GV and duration weights of the same engine get other vectors, before or after:
+        // voicing follows the *parameter* weights of the log-F0 stream only
+        let other_a = crate::env::dyadic_weights(rng, w.len(), false);
+        let other_b = crate::env::dyadic_weights(rng, w.len(), false);
+        if idx % 2 == 0 {
+            let iw = e.condition.get_interporation_weight_mut();
+            let _ = iw.set_gv(1, &other_a);
+            let _ = iw.set_duration(&other_b);
+        }
+        let set_ok = e.condition.get_interporation_weight_mut().set_parameter(1, &w).is_ok();
+        if idx % 2 == 1 {
+            let iw = e.condition.get_interporation_weight_mut();
+            let _ = iw.set_gv(1, &other_a);
+            let _ = iw.set_gv(0, &other_b);
+        }
+        if !set_ok {
             ctx.violation("valid-weights-rejected", J::from(descr.clone()));
             return;
         }
@@ -431,7 +446,12 @@ pub fn run(ctx: &mut Ctx) {
                 voiced_frames += 1;
                 // pulses only: exact zeros and a few positive impulses
                 let nz = seg.iter().filter(|x| **x != 0.0).count();
-                let period = rate as f64 / run.lf0[t][0].clamp(2.995_732_273_553_991, 9.903_487_552_536_127).exp();
+                // (the period glides from the previous frame's value: the shorter of the two bounds the count)
+                let per = |l: f64| rate as f64 / l.clamp(2.995_732_273_553_991, 9.903_487_552_536_127).exp();
+                let mut period = per(run.lf0[t][0]);
+                if t > 0 && run.lf0[t - 1][0] != NODATA {
+                    period = period.min(per(run.lf0[t - 1][0]));
+                }
                 let max_pulses = (fp as f64 / period.max(1.0)).ceil() as usize + 2;
                 if seg.iter().any(|x| *x < 0.0) || nz > max_pulses {
                     ctx.violation(
